@@ -1307,6 +1307,7 @@ func SelectExpr(query *Query, current Map, expr *sqlparser.SelectExprs, opts ...
 				// Async functions return pointers
 				// It's a good idea to convert them back to value types
 				if valueRaw, ok := valueRaw.(*any); ok {
+					prefix := expr.As.String()
 					query.postProcessors = append(query.postProcessors, func() error {
 						if err != nil {
 							return err
@@ -1319,6 +1320,27 @@ func SelectExpr(query *Query, current Map, expr *sqlparser.SelectExprs, opts ...
 								break
 							}
 							value = *x
+						}
+						// a deferred value may turn out to be one of the markers
+						// which are handled above for immediate values
+						switch value := value.(type) {
+						case Ommit:
+							{
+								delete(data, name)
+								return nil
+							}
+						case Fuse:
+							{
+								delete(data, name)
+								for key, value := range value {
+									if len(prefix) > 0 {
+										data[fmt.Sprintf("%s.%s", prefix, key)] = value
+										continue
+									}
+									data[key] = value
+								}
+								return nil
+							}
 						}
 
 						data[name] = value
